@@ -1,5 +1,5 @@
 \* spec mutation (W_Release = FALSE), observable consequence: a pod is deferred although no compatible reservation is exhausted - TLC must violate Inv_C17_DeferJustified
-CONSTANTS NPods = 3  PodArchs = {1,3,4}  Layouts = {1}  Caps = {1}  PoolSets = {4}  Modes = {"strict"}
+CONSTANTS NPods = 3  PodArchs = {1,3,4}  Layouts = {1}  Caps = {1}  PoolSets = {4}  Modes = {"strict"}  GenMod = 1  GenRes = 0
 CONSTANTS W_CanReserve = TRUE  W_Release = FALSE  W_PinAll = TRUE  W_Strict = TRUE  W_KeepHeld = TRUE  W_PoolOrder = TRUE
 SPECIFICATION Spec
 INVARIANTS Inv_C17_ReservationCapacity Inv_C17_DeferJustified
